@@ -2,6 +2,8 @@
 From WC Require Import Str Glob WcParse.
 From WC.Gen Require Import Consts FlagFuns.
 From WC.Proofs Require Import Bits C17Lemmas GlobLemmas.
+(* the committed snapshot of the regex source texts (pathlib dot-normalisation regexes) of the walker; a changed text breaks this import *)
+From WC.Proofs Require Pinned_glob.
 Open Scope Z_scope.
 
 (* the platform rules are fixed by the path class: whatever FORCEWIN/FORCEUNIX/other bits the user supplies, a
